@@ -129,10 +129,12 @@ def project(m: mm.MM) -> mm.MM:
 class Sdk:
     """The generated ``types`` module of one meta-model + the naming the harness needs."""
 
-    def __init__(self, m: mm.MM, defaults: Dict[str, Any]) -> None:
+    def __init__(self, m: mm.MM, defaults: Dict[str, Any], source: Optional[str] = None, spec: Optional[Dict[str, str]] = None) -> None:
         self.mm = m
         self.defaults = defaults  # "Class.method" -> abstract default value
-        self.source = mm.render(m)
+        #: ``source``/``spec``: an existing meta-model text + snippets of which ``m`` is the abstraction (``mm_from_symbol_table``)
+        self.source = mm.render(m) if source is None else source
+        self.spec = spec
         self.error: Optional[str] = None
         self.crash: Optional[str] = None
         self.code: Optional[str] = None
@@ -157,6 +159,8 @@ class Sdk:
         from aas_core_codegen.common import Identifier
         from aas_core_codegen.python import naming as N
 
+        if self.spec is not None:
+            return dict(self.spec)
         out: Dict[str, str] = {}
         for c in self.mm.classes:
             for me in c.methods:
@@ -992,9 +996,11 @@ def platform_model(rng: random.Random) -> Tuple[mm.MM, Dict[str, Any]]:
 # =========================================================================== run
 
 
-def run_model(ctx: Ctx, m: mm.MM, defaults: Dict[str, Any], trees: Sequence[Inst], stream: str, with_model: bool, check_main: bool = False) -> None:
-    sdk = Sdk(m, defaults).build()
-    mj = mm_to_json(m, defaults)
+def run_model(ctx: Ctx, m: mm.MM, defaults: Dict[str, Any], trees: Sequence[Inst], stream: str, with_model: bool, check_main: bool = False,
+              sdk: Optional[Sdk] = None) -> None:
+    if sdk is None:
+        sdk = Sdk(m, defaults).build()
+    mj = mm_to_json(m, defaults) if sdk.spec is None else {"fixture": stream}
     if not sdk.ok:
         # a rejected / crashing model is not in the quantifier of C29 (crashes of the generators are C02's)
         ctx.hit("model:" + ("crash:" + sdk.crash if sdk.crash else "rejected"))
@@ -1118,6 +1124,78 @@ def _run(ctx: Ctx, with_model: bool) -> None:
             if len(W.walk_insts(t)) <= 60:
                 trees.append(t)
         run_model(ctx, m, defaults, trees, "platform", with_model, check_main=(k % 5 == 0))
+    if ctx.tier == "thorough":
+        run_fixture(ctx, with_model)
+
+
+def mm_from_symbol_table(st: Any) -> mm.MM:
+    """The abstraction of a loaded meta-model (classes with their OWN properties, enumerations, constrained primitives)."""
+    from aas_core_codegen import intermediate as I
+
+    def ty(a: Any) -> Any:
+        if isinstance(a, I.PrimitiveTypeAnnotation):
+            return P({"bytearray": "bytes"}.get(a.a_type.value, a.a_type.value))
+        if isinstance(a, I.OurTypeAnnotation):
+            return R(str(a.our_type.name))
+        if isinstance(a, I.ListTypeAnnotation):
+            return L(ty(a.items))
+        if isinstance(a, I.OptionalTypeAnnotation):
+            return O(ty(a.value))
+        raise TypeError(repr(a))
+
+    out = mm.MM()
+    for t in st.our_types:
+        if isinstance(t, I.Enumeration):
+            out.enums.append(mm.Enum.of(str(t.name), [(str(li.name), li.value) for li in t.literals]))
+        elif isinstance(t, I.ConstrainedPrimitive):
+            out.constrained_primitives.append(mm.ConstrainedPrimitive(str(t.name), {"bytearray": "bytes"}.get(t.constrainee.value, t.constrainee.value)))
+        else:
+            out.classes.append(mm.Class(
+                str(t.name), bases=[str(i.name) for i in t.inheritances], abstract=isinstance(t, I.AbstractClass),
+                props=[mm.Prop(str(p.name), ty(p.type_annotation)) for p in t.properties if p.specified_for is t]))
+    return out
+
+
+def fixture_sdk(ctx: Ctx, name: str) -> Optional[Sdk]:
+    from aas_core_codegen import specific_implementations as SI
+
+    base = mm.REPO / "dev" / "test_data" / "main" / "python" / "expected" / name / "input"
+    src = (mm.REPO / "dev" / "test_data" / "common_meta_models" / f"{name}.py")
+    if not src.exists() or not (base / "snippets").exists():
+        ctx.note(f"fixture {name} not found; stream skipped")
+        return None
+    spec, errors = SI.read_from_directory(snippets_dir=base / "snippets")
+    if errors:
+        ctx.note(f"fixture {name}: snippets unreadable; stream skipped")
+        return None
+    text = src.read_text(encoding="utf-8")
+    ld = mm.load(text)
+    if not ld.ok:
+        ctx.note(f"fixture {name}: not accepted by the front end; stream skipped")
+        return None
+    m = mm_from_symbol_table(ld.symbol_table)
+    return Sdk(m, {}, source=text, spec={str(k): str(v) for k, v in spec.items()}).build()  # type: ignore[union-attr]
+
+
+def run_fixture(ctx: Ctx, with_model: bool, name: str = "aas_core_meta.v3") -> None:
+    """The real meta-model of the test data with its real snippets (thorough tier): random conforming trees."""
+    sdk = fixture_sdk(ctx, name)
+    if sdk is None:
+        return
+    m = sdk.mm
+    depth = required_depth(m)
+    b = Builder(m, ctx.rng)
+    concrete = [c.name for c in m.classes if not c.abstract and depth[c.name] < 6]
+    trees = []
+    for _ in range(ctx.n(0, 150)):
+        cname = ctx.rng.choice(concrete)
+        try:
+            t = b.instance(cname, depth[cname] + ctx.rng.choice([0, 1, 2]))
+        except (IndexError, RecursionError):
+            continue
+        if len(W.walk_insts(t)) <= 80:
+            trees.append(t)
+    run_model(ctx, m, {}, trees, "fixture:" + name, with_model, sdk=sdk)
 
 
 def correspond(ctx: Ctx) -> None:
@@ -1142,10 +1220,16 @@ def replay(ctx: Ctx, data: Dict[str, Any]) -> Any:
     inp = data["failure"]["input"] if "failure" in data else data
     if "input" in inp and "mm" not in inp:
         inp = inp["input"]
-    m, defaults = mm_from_json(inp["mm"])
-    trees = [W.from_jsonable(inp["instance"])] if "instance" in inp else []
     sub = Ctx(ctx.prop, ctx.tier, ctx.seed)
     sub.driver_ok = ctx.driver_ok
+    trees = [W.from_jsonable(inp["instance"])] if "instance" in inp else []
+    if "fixture" in inp["mm"]:
+        fsdk = fixture_sdk(sub, inp["mm"]["fixture"].split(":", 1)[1])
+        if fsdk is None:
+            return {"error": sub.notes}
+        run_model(sub, fsdk.mm, {}, trees, inp["mm"]["fixture"], ctx.driver_ok, sdk=fsdk)
+        return {"oracle": [[f["sig"], f["what"]] for f in sub.failures], "model_vs_impl": sub.disagreements[:5], "notes": sub.notes}
+    m, defaults = mm_from_json(inp["mm"])
     run_model(sub, m, defaults, trees, "replay", ctx.driver_ok)
     res: Dict[str, Any] = {"oracle": [[f["sig"], f["what"]] for f in sub.failures], "model_vs_impl": sub.disagreements[:5], "notes": sub.notes}
     if trees:
